@@ -78,13 +78,20 @@ func checkC13(c caseC13) (sig, msg string) {
 	}
 	p := api.Build(&m, c.Plan)
 	if c.Decoded {
-		q, err := mq.ReadPacket(bytes.NewReader(seq))
+		// the twin that supplies the reference bytes is decoded first, the
+		// packet to be shared last: whatever a decoder leaves bound to "the
+		// packet decoded most recently" is then bound to the shared one
+		q2, err := mq.ReadPacket(bytes.NewReader(seq))
 		if err != nil {
 			return "", "" // not decodable: nothing to share
 		}
-		q2, _ := mq.ReadPacket(bytes.NewReader(seq))
+		ref2, _, _ := api.Encode(q2)
+		q, err := mq.ReadPacket(bytes.NewReader(seq))
+		if err != nil {
+			return "", ""
+		}
 		p = q
-		seq, _, _ = api.Encode(q2)
+		seq = ref2
 	}
 	privateFrame := func(g, k int) []byte {
 		if len(c.Private) == 0 {
@@ -263,12 +270,12 @@ func TestC13(t *testing.T) {
 			n := rapid.IntRange(1, 3).Draw(t, "nprivate")
 			for i := 0; i < n; i++ {
 				f, _ := genHostileFrame(t)
-				switch rapid.IntRange(0, 5).Draw(t, "privatekind") {
+				switch rapid.IntRange(0, 8).Draw(t, "privatekind") {
 				case 0:
 					_, f, _, _ = genValidFrame(t, true)
-				case 1, 2:
+				case 1, 2, 3, 4:
 					f = genMisplacedProperty(t)
-				case 3, 4:
+				case 5, 6:
 					// a valid frame whose body stops early (remaining length
 					// adjusted): decoding fails on every stream, each with an
 					// error of its own
